@@ -3,6 +3,9 @@ CONSTANTS
   Design = "student_bookkeeping"
   Kind = "blocked"
   MaxSteps = 2
+  Inject = "base"
+  Handback = "per_run"
+  NextRun = "plain"
   defaultInitValue = defaultInitValue
 INVARIANT ExcIsTimeout
 INVARIANT ExcStable
